@@ -863,7 +863,6 @@ func coneErrVars(w *World, roots ...*Func) map[*types.Var]bool {
 	return out
 }
 
-
 // rangesOverOffsets: e is the value variable of a range over an offsets array (the key may be blank).
 func rangesOverOffsets(f *Func, e ast.Expr) bool {
 	id, ok := ast.Unparen(f.stripConv(e)).(*ast.Ident)
@@ -1461,7 +1460,6 @@ func pathSearchErrs(f *Func, g *Graph, from Loc, seed map[types.Object]string, v
 	}
 	return false
 }
-
 
 // continuationOf: the statements that run after st when control falls out of it, flattened through enclosing
 // case clauses and blocks up to the end of the function (a loop boundary ends the list with a marker statement
